@@ -263,6 +263,30 @@ class World:
             out = 'err ' + ERR.get(name, name)
         return out
 
+    def query(self, line):
+        """read-only observations (`q …` lines): same canonical text as the model driver"""
+        ws = line.split()[1:]
+        O = self.objs
+        try:
+            if ws[0] == 'frag':
+                return O[int(ws[1])].eURIFragment()
+            if ws[0] == 'resolve':
+                try:
+                    r = self.res[int(ws[1])].resolve(ws[2])
+                except Exception:
+                    return 'none'
+                i = self.oid(r) if r is not None else None
+                return 'none' if i is None else f'o:{i}'
+            if ws[0] == 'contents':
+                return ','.join(map(str, sorted(self.oid(x) for x in O[int(ws[1])].eContents)))
+            if ws[0] == 'allcontents':
+                return ','.join(map(str, sorted(self.oid(x) for x in O[int(ws[1])].eAllContents())))
+            if ws[0] == 'root':
+                return f'o:{self.oid(O[int(ws[1])].eRoot())}'
+        except Exception as e:
+            return 'err ' + type(e).__name__
+        return 'bad-op'
+
     def _apply(self, op, a):
         O, F = self.objs, self.feats
         if op == 'new':
@@ -315,9 +339,11 @@ class World:
 # history generation (op by op, looking at the real state so that re-assignment / stealing / failures are frequent)
 
 class Gen:
-    def __init__(self, rng, mm, world, triggers=False, weights=None):
+    def __init__(self, rng, mm, world, triggers=False, weights=None, focus=None, max_objs=7):
         self.rng, self.mm, self.w, self.triggers = rng, mm, world, triggers
         self.weights = weights or {}
+        self.focus = focus or []       # features to prefer (e.g. many-valued containments for C11)
+        self.max_objs = max_objs
 
     def objs_with(self, f):
         return [i for i, o in enumerate(self.w.objs)
@@ -389,7 +415,7 @@ class Gen:
         rng, w, mm = self.rng, self.w, self.mm
         for _ in range(50):
             k = rng.random()
-            if len(w.objs) < 3 or (k < .06 and len(w.objs) < 7):
+            if len(w.objs) < 3 or (k < .06 and len(w.objs) < self.max_objs):
                 cs = [c for c in mm.classes if not c[1]]
                 return f'new {rng.choice(cs)[0]}'
             if k < .09 and len(w.res) < 2:
@@ -402,7 +428,7 @@ class Gen:
                 return f'rremove {r} {o}'
             if k < .22:
                 return f'delete {rng.randrange(len(w.objs))} {rng.choice([0, 1, 1])}'
-            f = rng.choice(mm.feats)
+            f = rng.choice(self.focus) if self.focus and rng.random() < .6 else rng.choice(mm.feats)
             xs = self.objs_with(f)
             if not xs:
                 continue
